@@ -708,9 +708,11 @@ main(int argc, char **argv) {
         for (int k = 0; k < 3; k++) {
           struct cfg c = {.ato_ms = 2000, .arf_milli = 1500, .max_retx = k == 2 ? 2 : 4, .nreq = nr, .nsess = ns, .nstart = ns == 1 ? 3 : 1,
                           .with_non = 1, .answer_from = k == 0 ? 0 : k == 1 ? 1 : 99, .verdict = 'A', .rsel = 3, .stagger = st,
-                          .bound = T ? 3 : 2, .late_timer = 1, .verdict_choice = 1};
+                          .bound = 2, .late_timer = 1, .verdict_choice = 1};
           if (!T && nr == 3 && k != 0)
             c.bound = 1;
+          if (T && nr == 2 && st == 0 && k == 0)
+            c.bound = 3; /* (bound 3 on all 24 configurations is ~3.3 million executions more than a thorough budget holds) */
           add(c);
           if (ns == 2 && st == 0) {
             /* the two sessions use equal message ids: an ACK / RST must only ever affect its own session's message */
